@@ -6,6 +6,18 @@ CHECKS = {
                             "go1.26.8 testing/synctest bubble semantics; in-memory network vnet instead of TCP"]},
     "C03": {"kind": "explore", "scenarios": ["fault"], "tags": ["C03"], "budget": {"quick": 150, "thorough": 1500}},
     "C04": {"kind": "explore", "scenarios": ["fault"], "tags": ["C04"], "budget": {"quick": 150, "thorough": 1500}},
+    "C07": {"kind": "explore", "scenarios": ["stream"], "tags": ["C07"]},
+    "C08": {"kind": "explore", "scenarios": ["term"], "tags": ["C08", "C18"]},
+    "C01": {"kind": "seqx", "pkg": "c01", "test": "TestC01",
+            "assumptions": ["boundary-value alphabet per type and pairwise coverage for arity 3 (DESIGN §3 C01)", "HTTP/WS transports over loopback TCP"]},
+    "C09": {"kind": "seqx", "pkg": "c09", "test": "TestC09",
+            "assumptions": ["request bodies are drawn from the finite grammar of DESIGN §3 C09; error texts and HTTP status codes are not part of the property"]},
+    "C10": {"kind": "seqx", "pkg": "c10", "test": "TestC10",
+            "assumptions": ["hostile inputs are drawn from the frame alphabet, length-2 sequences and byte mutations of DESIGN §3 C10; each input runs in an isolated child process over loopback TCP"]},
+    "C12": {"kind": "seqx", "pkg": "c12", "test": "TestC12",
+            "assumptions": ["small universe: namespaces {A,B,''}, two handler types, 5 formatters, 14 alias tables; encoding/json is the reference for 'decodes into the declared type'"]},
+    "C11": {"kind": "seqx", "pkg": "c11", "test": "TestC11",
+            "assumptions": ["error species, registration tables and messages are the finite alphabets of DESIGN §3 C11", "HTTP/WS transports run over loopback TCP under the Go scheduler (no scheduling dimension in this property)"]},
     "C19": {"kind": "seqx", "pkg": "c19", "test": "TestC19",
             "assumptions": ["the checks compare permissions only for equality, so the 3-permission universe is representative"]},
 }
@@ -15,6 +27,24 @@ NOT_APPLICABLE = {}
 
 # Per-property wording for MANIFEST.level_claimed / level_note.
 TEXT = {
+    "C01": {"level": "A generated matrix of 4048 method signatures (arity 0-3, with/without ctx, 4 result shapes, 14 types; RawParams; custom param codec pairs) x all boundary-value tuples x handler outcomes x transports x formatters is enumerated against the encoding/json round-trip reference and a cross-transport differential.",
+            "note": "Finite boundary alphabets; arity-3 type assignments pairwise; HTTP/WS over loopback TCP."},
+    "C07": {"level": "All schedules within the deviation bound of k<=2 subscriptions (lengths 0,1,3,40; attentive, late and stalled consumers; buffered/unbuffered handler channels) plus a unary call on one connection; sequence equality and close per stream at quiescence, wire order response < first value < close.",
+            "note": "Healthy connection only (faults are C08); element type int (the type matrix is C01's)."},
+    "C08": {"level": "Termination causes {handler close, ctx cancel, FIN, RST, client close}, single and all ordered pairs, fired by low-priority actors so that one deviation places them at any decision point of the stream's life; at quiescence every channel handed out with a nil error is closed and what was received is a prefix.",
+            "note": "A channel returned together with a non-nil error is not counted as handed to the caller. 3-value producers; reconnect on/off."},
+    "C09": {"level": "Every single request and every batch up to length 2 (quick) / 3 (thorough) over a 37-element alphabet x ids x whitespace layouts, degenerate bodies and all truncations, through ServeHTTP and HandleRequest, single frames over WebSocket; compared with a reference JSON-RPC responder and per-token execution counters.",
+            "note": "Error texts, HTTP status codes and codes outside the four named ones are not asserted."},
+    "C10": {"level": "~4.6k hostile frames per target (server and client), length-2 sequences and byte mutations in the thorough tier, each run against live well-behaved siblings in an isolated child process with journalling; plus body sizes L-1/L/L+1 for L in {1,64,1000}.",
+            "note": "Crash = child death attributed via journal and reproduced alone; waits are step timeouts, not oracles."},
+    "C12": {"level": "Complete enumeration of the small dispatch universe (ordered registration sequences x 5 formatters x 14 alias tables x ~115 candidate names), client/tag agreement, and arity 0..k+1 x JSON kind per position over 1597 signatures, against a map reference model with encoding/json as the decodability reference.",
+            "note": "HandleRequest transport (dispatch code is shared by all transports)."},
+    "C03": {"level": "Every (fault kind x direction x frame x position-in-frame x phase of the second call x second fault) tuple is explored, each to its deviation bound, on the real reconnecting client over the in-memory network; a clock-free lost-call rule is evaluated at quiescence after a probe round-tripped, and again after the client was closed.",
+            "note": "Bounded: 2 user calls + probes, frames 0..1 per direction, deviation bound 1 (2 on the reconnect-window subset in the thorough tier); RST keeps already delivered bytes readable; blackhole tuples run at bound 0 with pings on (virtual clock)."},
+    "C04": {"level": "Same exhaustive fault x schedule space as C03 with per-token handler execution counters and the wire log of every link as observables (at most one request frame per plain id across all connections, notifications without id, no id-less responses).",
+            "note": "As C03. Retry-tagged calls are the contrast case: repeated frames/executions are permitted only for them."},
+    "C11": {"level": "The full product error species x registration table x message x method shape x handler outcome (x transport in the thorough tier) is enumerated against a reference model of the wire code and the client's table.",
+            "note": "Finite alphabets as listed in DESIGN; value-form marshalable types are observed, not asserted (the statement's content clause is read as applying to types implementing the marshalling pair)."},
     "C19": {"level": "The whole finite configuration space (default set x caller set x attachment mode x required permission x method shape, plus header form x query form x verifier outcome for the HTTP handler) is enumerated completely against a set-membership reference model, with the implementation's own invocation counter as the observable.",
             "note": "3-permission universe; real auth package, httptest recorder; no scheduling dimension."},
     "C02": {"level": "Every schedule of n concurrent callers on one client (WS n=2..3, HTTP n=3..4) that deviates from the default schedule at up to the stated bound of decision points is executed on the real client, server, gorilla/websocket and net/http over an in-memory network, and each execution is checked for per-call token match, single return, exactly one handler run and one request/response frame per id on the wire. This is the level at which lost/duplicated/cross-delivered responses manifest (they need specific interleavings of registration, write, read and delivery).",
